@@ -67,6 +67,8 @@ def plan(tier, seed, searching):
     extra = os.environ.get("VERIF_C11_CLASSES", "")         # e.g. "border0,cp-disp" to look at a class by hand
     modes = [m for i, m in GEN_CLASSES.items() if i in ids or m in extra.split(",")]
     strict = [c for i, c in DRV_CLASSES.items() if i in ids or c in extra.split(",")]
+    if "retarget-jmove" not in strict:
+        strict.append("retarget-jmove")   # repaired in /repo e0e5881 (fix:), so always strict now
     hargs = ["--seed", str(seed), "--tier", tier, "--scale", "8" if searching else "1"]
     if modes:
         hargs += ["--mode", "+".join(modes)]
